@@ -20,6 +20,7 @@ CONSTANTS
   UseReopen = FALSE
   UseEpochs = FALSE
   OccSet = {FALSE}
+  MinCleanSegs = 1
   UseReaders = FALSE
 INVARIANTS CTypeOK EpochCacheKnowsLatest
 VIEW MCView
